@@ -858,7 +858,7 @@ def run_cli(argv, pre):
             f.write(c)
     W = DeferredFileWriter()
     W.close()
-    rec = {'opens': [], 'gate': None, 'gate_leftover': None, 'gate_entries': None, 'top': None, 'dssp': [], 'gate_calls': 0}
+    rec = {'opens': [], 'gate': None, 'gate_leftover': None, 'gate_specs': None, 'gate_entries': None, 'top': None, 'dssp': [], 'gate_calls': 0}
     orig_open, orig_write = DeferredFileWriter.open, DeferredFileWriter.write
     orig_iwc, orig_top, orig_rd, orig_rm = LH.ignore_warnings_and_count, GT.write_gmx_topology, DS.run_dssp, DS.run_mdtraj
 
@@ -879,6 +879,10 @@ def run_cli(argv, pre):
         res = orig_iwc(counter, specifications, *a, **k)
         rec['gate_calls'] += 1
         rec['gate_leftover'] = res
+        try:
+            rec['gate_specs'] = [[[t, c] for t, c in g] for g in specifications]
+        except Exception:  # noqa
+            rec['gate_specs'] = repr(specifications)[:200]
         rec['gate_entries'] = [[lvl, typ, cnt] for lvl, dd in counter.counts.items() for typ, cnt in dd.items()]
         return res
 
@@ -952,6 +956,59 @@ def run_cli(argv, pre):
                 'finalised': finalised, 'inside': inside, 'counter': counters[0] if counters else None,
                 'log': log_err, 'exc': exc, 'subdirs': subdirs, 'left_pending': left_pending})
     return rec
+
+
+def own_parse(text):
+    """The documented grammar of one -maxwarn token, read by the harness itself (copy of `own_parse` of harness/c08.py;
+    bin/martinize2 is not consulted): NUMBER | TYPE | TYPE:NUMBER, where TYPE may be empty (':3' limits the type ''
+    - which no warning has - to 3; it is NOT a blanket allowance).  None: not a token of the grammar (usage error)."""
+    if text.count(':') == 1:
+        t, c = text.split(':')
+        try:
+            return (t, int(c))
+        except ValueError:
+            return None
+    if ':' in text:
+        return None
+    try:
+        return (None, int(text))
+    except ValueError:
+        return (text, None)
+
+
+def token_shapes(groups, warn):
+    """which shapes of -maxwarn tokens a run exercised, relative to the warnings it logged (warn: type -> count)"""
+    total = sum(warn.values())
+    out = set()
+    for g in groups:
+        for tok in g:
+            sp = own_parse(tok)
+            if sp is None:
+                out.add('malformed')
+                continue
+            t, c = sp
+            if t is None:
+                out.add('number<0' if c < 0 else 'number<count' if c < total else 'number=count' if c == total else 'number>count')
+            elif c is None:
+                out.add('type/occurred' if warn.get(t) else 'type/absent')
+            elif t == '':
+                out.add('empty-type:N')
+            elif not warn.get(t):
+                out.add('type:N/absent')
+            elif c < 0:
+                out.add('type:N<0')
+            else:
+                out.add('type:N/occurred/' + ('N<count' if c < warn[t] else 'N=count' if c == warn[t] else 'N>count'))
+        if len(g) >= 2:
+            out.add('several-tokens-in-one-flag')
+    if len(groups) >= 2:
+        out.add('repeated-flags')
+    return sorted(out)
+
+
+MW_SHAPES = ['empty-type:N', 'type:N/occurred/N<count', 'type:N/occurred/N=count', 'type:N/occurred/N>count', 'type:N/absent',
+             'type:N<0', 'type/occurred', 'type/absent', 'number<0', 'number<count', 'number=count', 'number>count',
+             'several-tokens-in-one-flag', 'repeated-flags']
 
 
 def leftover_oracle(entries, specs, level=logging.WARNING):
@@ -1280,7 +1337,7 @@ def cli_eval(j):
         return {'cid': j['cid'], 'ln': line('cli-harness-failure', j['cid']), 'impl': 'harness-failure', 'errs':
                 ['harness: worker failed: ' + traceback.format_exc()[-1500:]], 'nontrivial': False, 'finding': None,
                 'counts': ['cli_worker_failure'], 'use_model': False, 'facts': None, 'kind': 'failed',
-                'branch': j['branch'], 'argv': [], 'ln2': None, 'impl2': None, 'cov': {}}
+                'branch': j['branch'], 'argv': [], 'shapes': [], 'ln2': None, 'impl2': None, 'cov': {}}
 
 
 def cli_eval_(j):
@@ -1289,7 +1346,13 @@ def cli_eval_(j):
     pre = {n: ('old %s\n' % n).encode() * 3 for n in j['pre']}
     r = run_cli(argv, pre)
     counts = []
-    specs = [[M2['maxwarn'](s) for s in g] for g in j['maxwarn']]
+    # the -maxwarn tokens as the HARNESS reads them from the documented grammar; the parser of bin/martinize2 is not
+    # asked: expected leftover, gate model and `outputs` model all start from this reading
+    own = [[own_parse(s) for s in g] for g in j['maxwarn']]
+    malformed = [s for g in j['maxwarn'] for s in g if own_parse(s) is None]
+    specs = [[sp for sp in g if sp is not None] for g in own]
+    flat_ = [sp for g in specs for sp in g]
+    overlap = {t for t, c in flat_ if c is None} & {t for t, c in flat_ if c is not None}
     dumps = [j[k] for k in ('graph', 'repair', 'canon') if j[k] is not None]
     reached = r['gate_calls'] > 0
     # counter as the gate saw it; fallback (gate hook not called): the final counter minus the gate's own error record
@@ -1322,8 +1385,15 @@ def cli_eval_(j):
     errs, finding = [], None
     if r['subdirs']:
         errs.append('the run created directories %s' % r['subdirs'])
+    if malformed and j['abort'] != 'usage':
+        errs.append('harness: -maxwarn tokens %r are outside the documented grammar but the job does not expect a usage error' % (malformed,))
+    if overlap:
+        errs.append('harness: the job names the warning types %r both with and without a number (left open by the property)' % sorted(overlap, key=str))
     if r['gate_leftover'] is not None and r['gate_leftover'] != left:
-        errs.append('the gate computed %r leftover warnings, the closed form on the counter gives %d' % (r['gate_leftover'], left))
+        errs.append('the gate computed %r leftover warnings; the documented -maxwarn grammar (NUMBER | TYPE | TYPE:NUMBER) read '
+                    'independently of bin/martinize2 gives %d for the warnings logged (-maxwarn %s read as %s; the code '
+                    'handed %s to the gate; counter at the gate: %s)'
+                    % (r['gate_leftover'], left, j['maxwarn'], specs, r['gate_specs'], ent_gate))
     if j['abort'] is None:
         if isinstance(r['code'], str):
             errs.append('martinize2 raised %s %s (martinize2 %s)' % (r['code'], r['exc'], ' '.join(argv)))
@@ -1410,6 +1480,15 @@ def cli_eval_(j):
     counts += ['cli_exit=%s' % (r['code'],), 'cli_warnings=%d' % min(nwarn, 3),
                'cli_leftover=%d' % (left if left % 256 == 0 else min(left, 3)),
                'cli_deferred_outputs=%d' % len(r['gate']), 'cli_%s' % kind, 'branch:%s/%s' % (j['branch'], kind)]
+    shapes = []
+    if j['abort'] is None and reached:
+        warn_by_type = {}
+        for l, t, c in ent_gate:
+            if l == logging.WARNING:
+                warn_by_type[t] = warn_by_type.get(t, 0) + c
+        if warn_by_type:
+            shapes = token_shapes(j['maxwarn'], warn_by_type)
+            counts += ['maxwarn_token:%s/%s' % (sh, kind) for sh in shapes]
     if pre:
         counts.append('cli_preexisting_files')
     if dumps:
@@ -1462,7 +1541,7 @@ def cli_eval_(j):
              'ent_gate': ent_gate, 'specs': specs, 'left': left, 'code': r['code']}
     return {'cid': j['cid'], 'ln': ln, 'impl': impl, 'errs': errs, 'nontrivial': nwarn >= 1 or bool(dumps),
             'finding': finding, 'counts': counts, 'use_model': use_model and not finding, 'facts': facts,
-            'kind': kind, 'branch': j['branch'], 'argv': argv, 'ln2': ln2, 'impl2': impl2, 'cov': chk.worker_lines()}
+            'kind': kind, 'branch': j['branch'], 'argv': argv, 'shapes': shapes, 'ln2': ln2, 'impl2': impl2, 'cov': chk.worker_lines()}
 
 
 # ---- the plan ---------------------------------------------------------------------------------------
@@ -1509,6 +1588,36 @@ J('gate-altloc256', altloc_input('dipro-termini', 300), ['-ff', 'martini3001', '
 FFW = ['-ff', 'martini3001', '-nt', '-noscfix', '-ss', 'C', '-ff-dir', ffwarn_dir()]
 J('gate-ffwarn', DIPRO, FFW, pre=['cg.pdb'], need_warn=True)
 J('gate-ffwarn', DIPRO, FFW, maxwarn=[['1']], pre=['cg.pdb'], need_warn=True)
+
+# (1b) every shape of -maxwarn token with warnings present.  The expected leftover (want_left, worked out by hand) and the
+#      gate model start from the harness's own reading of the documented grammar, never from the parser of bin/martinize2.
+#      The run logs 5 warnings of three types: pdb-alternate 1 (logged first), general 3, missing-feature 1.
+MW_IN, MW_OPTS = altloc_input('dipro-termini', 1), WARN_OPTS['both2'][0]
+for mw, want, pre in [
+    ([[':7']], 5, ['cg.pdb']),                     # empty type: an allowance for the type '' that no warning has, NOT a blanket 7
+    ([['2', ':9']], 3, []),                        # ... also next to a real blanket allowance (2 of 5 waived)
+    ([['general:2']], 3, []),                      # type that occurred, fewer than its count
+    ([['general:3', 'missing-feature:1', 'pdb-alternate:1']], 0, ['topol.top', 'cg.pdb']),   # exactly its count, three tokens in one flag
+    ([['general:99', '2']], 0, []),                # more than its count; the surplus is not carried over to other types
+    ([['general:99', '1']], 1, []),
+    ([['never-seen:10']], 5, []),                  # type that did not occur
+    ([['missing-feature:0', '4']], 1, []),         # zero is a number, not "all"
+    ([['general']], 2, []),                        # bare type that occurred
+    ([['never-seen']], 5, []),                     # bare type that did not occur
+    ([['general', 'missing-feature', 'pdb-alternate']], 0, []),
+    ([['', '4']], 1, []),                          # the empty string is a (never occurring) type
+    ([['4']], 1, ['topol.top']),                   # bare number: smaller than / equal to / larger than the count
+    ([['5']], 0, ['topol.top']),
+    ([['6']], 0, []),
+    ([['2'], ['3']], 2, []),                       # repeated flags: the larger number counts, not the sum
+    ([['general'], ['2']], 0, []),
+    ([['-5']], 5, []),                             # negative numbers waive nothing (5 = the number of warnings)
+    ([['general:-1', '5']], 3, []),
+]:
+    J('maxwarn-shapes', MW_IN, MW_OPTS, maxwarn=mw, pre=pre, need_warn=True, want_left=want, cost=0.9)
+# tokens outside the grammar: usage error before anything is read
+J('abort-maxwarn-three-parts', DIPRO, M3, maxwarn=[['general:1:2']], abort='usage', pre=['cg.pdb'])
+J('abort-maxwarn-no-number', DIPRO, M3, maxwarn=[['general:']], abort='usage')
 
 # (2) every file-writing branch of `entry`, once with an unwaived warning (-scfix: one 'general' warning with
 #     martini3001) and once with the warning waived or absent
@@ -1633,7 +1742,11 @@ def random_job(i):
         if rng.random() < 0.15:
             k[key] = rng.choice(['dump_%s.pdb' % key, 'd.pdb'])
     mw = rng.choice([[], [[str(rng.randint(0, 3))]], [['general']], [['general:%d' % rng.randint(0, 2)]],
-                     [['missing-feature'], [str(rng.randint(0, 2))]], [['general', 'missing-feature']]])
+                     [['missing-feature'], [str(rng.randint(0, 2))]], [['general', 'missing-feature']],
+                     [[':%d' % rng.randint(0, 9)]], [[str(rng.randint(0, 2)), ':%d' % rng.randint(1, 9)]],
+                     [['-%d' % rng.randint(1, 3)]], [['general:-1', str(rng.randint(0, 2))]],
+                     [['never-seen:%d' % rng.randint(0, 9)], ['missing-feature:%d' % rng.randint(0, 1)]],
+                     [['', 'general'], [str(rng.randint(0, 1)), str(rng.randint(0, 1))]]])
     names = ['cg.pdb', 'topol.top', 'molecule_0.itp', '#cg.pdb.1#', '#topol.top.1#', 'x.dat', 'go_nbparams.itp',
              'molecule.itp', 'chain_A.ssd', 'd.pdb']
     J('random', inp, extra, maxwarn=mw, pre=rng.sample(names, rng.randint(0, 4)), **k)
@@ -1680,6 +1793,17 @@ for b, kinds in sorted(seen.items()):
         matrix_errs.append('harness: branch %s was only seen %s (needs a blocked and a passed run)' % (b, sorted(kinds)))
 chk.extra['cli_branches'] = {b: sorted(k) for b, k in sorted(seen.items())}
 chk.case('cli-branch-matrix', line('branches', sorted(seen)), 'ok' if not matrix_errs else 'incomplete', None, matrix_errs, True)
+
+# every shape of -maxwarn token must have been passed to a run that logged warnings
+shape_seen = {}
+for r in cli_rows:
+    for sh in r['shapes']:
+        shape_seen.setdefault(sh, set()).add(r['kind'])
+shape_errs = ['harness: no run with warnings was given a -maxwarn token of shape %s' % sh for sh in MW_SHAPES if sh not in shape_seen]
+if not any('blocked' in shape_seen.get(sh, ()) for sh in ('empty-type:N',)):
+    shape_errs.append('harness: no blocked run with a -maxwarn token of the shape :N')
+chk.extra['cli_maxwarn_token_shapes'] = {sh: sorted(k) for sh, k in sorted(shape_seen.items())}
+chk.case('cli-maxwarn-token-shapes', line('shapes', sorted(shape_seen)), 'ok' if not shape_errs else 'incomplete', None, shape_errs, True)
 
 shutil.rmtree(SCRATCH, ignore_errors=True)
 chk.finish()
